@@ -1,4 +1,5 @@
 import ClaripyProofs.Lemmas.VSA.Lift
+import ClaripyProofs.Lemmas.VSA.Lub
 import ClaripyProofs.Lemmas.VSA.AddSub
 import Claripy.VSA.Conc
 /-!
@@ -52,6 +53,36 @@ theorem C23_dsis_add_sound (hJ : JoinOK (fun s => s.WF)) (a : DSIS) (bs : List S
     (h : a.lift2 (fun s t => pure (s.add t)) bs order = .ok v) (x y : Nat) (hx : a.mem x) (hy : memL bs y) :
     v.mem ((x + y) % 2 ^ a.bits) := by
   refine lift2_sound (fun s => s.WF) hJ (fun s t => pure (s.add t)) (fun x y => (x + y) % 2 ^ a.bits) a bs order v ?_ ?_ h x y hx hy
+  · intro s t r x y hs ht hsx hty hr
+    have hr' : r = s.add t := by cases hr; rfl
+    subst hr'
+    have := add_sound s t x y (by rw [(hwa s hs).2, (hwb t ht).2]) (hwa s hs).1 (hwb t ht).1 hsx hty
+    rw [(hwa s hs).2] at this
+    exact this
+  · intro s t r hs ht hr
+    have hr' : r = s.add t := by cases hr; rfl
+    subst hr'
+    exact hPr s t hs ht
+
+/-! ### with the join obligation discharged (C22_pseudo_join_sup) -/
+
+/-- `collapse()` contains every member — unconditionally, for sets of well-formed intervals of one width -/
+theorem C23_collapse_sound (w : Nat) (d : DSIS) (r : SI) (hP : ∀ s, s ∈ d.sis → s.WF ∧ s.bits = w)
+    (h : d.collapse = .ok r) (x : Nat) (hx : d.mem x) : r.mem x :=
+  collapse_sound (WFw w) (joinOK w) d r hP h x hx
+
+/-- `normalize()` keeps every member — unconditionally -/
+theorem C23_normalize_sound (w : Nat) (d : DSIS) (v : Val) (hP : ∀ s, s ∈ d.sis → s.WF ∧ s.bits = w)
+    (h : d.normalize = .ok v) (x : Nat) (hx : d.mem x) : v.mem x :=
+  normalize_sound (WFw w) (joinOK w) d v hP h x hx
+
+/-- `dsis + (dsis | interval)` is sound — unconditionally (add_sound + lifting + join) -/
+theorem C23_dsis_add (a : DSIS) (bs : List SI) (order : List Nat) (v : Val)
+    (hwa : ∀ s, s ∈ a.sis → s.WF ∧ s.bits = a.bits) (hwb : ∀ t, t ∈ bs → t.WF ∧ t.bits = a.bits)
+    (hPr : ∀ s t, s ∈ a.sis → t ∈ bs → (s.add t).WF ∧ (s.add t).bits = a.bits)
+    (h : a.lift2 (fun s t => pure (s.add t)) bs order = .ok v) (x y : Nat) (hx : a.mem x) (hy : memL bs y) :
+    v.mem ((x + y) % 2 ^ a.bits) := by
+  refine lift2_sound (WFw a.bits) (joinOK a.bits) (fun s t => pure (s.add t)) (fun x y => (x + y) % 2 ^ a.bits) a bs order v ?_ ?_ h x y hx hy
   · intro s t r x y hs ht hsx hty hr
     have hr' : r = s.add t := by cases hr; rfl
     subst hr'
